@@ -583,3 +583,39 @@ def run_replay(mod, path: str) -> int:
         return 1
     print(f"replay {path}: property holds on this case")
     return 0
+
+
+# ----------------------------------------------------------------------------------------------
+# helpers for custom sub-checks
+# ----------------------------------------------------------------------------------------------
+
+
+def collect_examples(strategy, n: int, seed_val: int) -> list:
+    """the first `n` examples Hypothesis generates from `strategy` under `seed_val` (deduplicated by digest)"""
+    from hypothesis import HealthCheck, Phase, given, seed, settings
+
+    out: list = []
+    seen: set = set()
+
+    def body(case):
+        d = digest(case)
+        if d not in seen and len(out) < n:
+            seen.add(d)
+            out.append(json.loads(canon(case)))
+
+    st_ = settings(max_examples=max(n * 3, n + 20), database=None, deadline=None, derandomize=False,
+                   suppress_health_check=list(HealthCheck), phases=[Phase.generate])
+    seed(seed_val)(st_(given(strategy)(body)))()
+    return out
+
+
+def run_python(code: str, env_extra: dict | None = None, stdin: str | None = None, timeout: int = 600) -> str:
+    """run `code` in a fresh interpreter that sees the same tree under test; returns stdout (raises HarnessError on failure)"""
+    import subprocess
+
+    env = dict(os.environ)
+    env.update(env_extra or {})
+    p = subprocess.run([sys.executable, "-B", "-W", "ignore", "-c", code], input=stdin, capture_output=True, text=True, env=env, timeout=timeout)
+    if p.returncode != 0:
+        raise HarnessError(f"sub-interpreter failed ({p.returncode}):\n{p.stderr[-3000:]}")
+    return p.stdout
